@@ -417,6 +417,12 @@ var forgeShapes = []struct {
 	{"last-output-without-commitment", false, func(tt *kernel.Tape) txgen.RctForge {
 		return txgen.RctForge{DropLastOutPk: true}
 	}},
+	{"second-account-input", false, func(tt *kernel.Tape) txgen.RctForge {
+		// account->hidden only (ignored by hidden spends, which then are the
+		// honest transaction inflated by X: unbalanced, refused all the same)
+		x := surplusUnits(tt)
+		return txgen.RctForge{InflateUnits: x, ExtraAccountInput: x}
+	}},
 	{"encrypted-amounts-surplus", true, func(tt *kernel.Tape) txgen.RctForge { return txgen.RctForge{EcdhDelta: 1 + tt.Int(2)} }},
 	{"encrypted-amounts-deficit", true, func(tt *kernel.Tape) txgen.RctForge { return txgen.RctForge{EcdhDelta: -1} }},
 	{"additional-keys-surplus", true, func(tt *kernel.Tape) txgen.RctForge { return txgen.RctForge{AddKeysDelta: 1 + tt.Int(2)} }},
